@@ -52,6 +52,11 @@ static TaskResult run_task_ops(const std::vector<Op> &ops) {
         }
         run.count(op.k == "PLC" ? "plc_ops" : "fec_ops");
       }
+      else if (op.k == "DCTL") {   // decoder-side settings (gain, complexity, phase inversion) on every replica of the task
+        static const int reqs[3] = {OPUS_SET_GAIN_REQUEST, OPUS_SET_COMPLEXITY_REQUEST, OPUS_SET_PHASE_INVERSION_DISABLED_REQUEST};
+        for (auto &d : x.S.decs) run.ev((uint64_t)d->set(reqs[((op.arg(0) % 3) + 3) % 3], (int)op.arg(1)));
+        run.count("dctl_ops");
+      }
       else if (op.k == "DRESET") { for (auto &d : x.S.decs) { run.ev((uint64_t)d->reset()); } }
       else if (op.k == "DESTROY") { x.S.decs.clear(); x.S.dec_fmt.clear(); x.S.enc.destroy(); }
       else x.do_op(op);
@@ -95,7 +100,7 @@ void exec(const Plan &p, Run &run) {
   if (st.pre_fired > 0) run.fired = true;
   for (size_t i = 0; i < n; i++) {
     run.ev(inter[i].evhash); run.api_ok += inter[i].api_ok; run.sim_samples48 += inter[i].sim48;
-    for (auto &kv : inter[i].stat) if (kv.first.rfind("mode_", 0) == 0 || kv.first == "rp_ops" || kv.first == "plc_ops" || kv.first == "fec_ops" || kv.first == "ctl_applied") run.count(kv.first, kv.second);
+    for (auto &kv : inter[i].stat) if (kv.first.rfind("mode_", 0) == 0 || kv.first == "rp_ops" || kv.first == "plc_ops" || kv.first == "fec_ops" || kv.first == "dctl_ops" || kv.first == "ctl_applied") run.count(kv.first, kv.second);
   }
   // signature = the interleaving actually executed: per-task access counts at the time of the run + switch count + preemptions
   run.sg((uint64_t)st.switches); run.sg((uint64_t)st.pre_fired);
@@ -131,7 +136,7 @@ void gen_task(Rng &r, std::vector<Op> &ops, int tier, int force_kind) {
   };
   for (int i = (int)r.range(0, 3); i > 0; i--) push_ctl();
   if (r.chance(0.6)) ops.push_back(mkop("CTL", {11002, r.pick({1000, 1001, 1002})}));
-  ops.push_back(mkop("SRC", {r.weighted({1, 0, 4, 2, 5, 3, 1, 1, 2, 0, 0, 1, 4}), r.pick({110, 220, 440, 1000, 3000}), r.pick({100, 300, 500, 900}), r.range(1, 1000), r.range(0, 1000)}));
+  ops.push_back(mkop("SRC", {r.weighted({1, 0, 4, 2, 5, 3, 1, 1, 2, 0, 0, 1, 4, 1, 1, 2}), r.pick({110, 220, 440, 1000, 3000}), r.pick({100, 300, 500, 900}), r.range(1, 1000), r.range(0, 1000)}));
   int nfr = (int)(tier ? r.range(4, 30) : r.range(2, 10));
   int fidx = r.weighted({1, 1, 4, 8, 2, 1, 0, 0, 0});
   for (int i = 0; i < nfr; i++) {
@@ -142,6 +147,7 @@ void gen_task(Rng &r, std::vector<Op> &ops, int tier, int force_kind) {
     if (r.chance(0.15)) ops.push_back(mkop("RP", {r.range(0, 3)}));
     if (r.chance(0.12)) ops.push_back(mkop(r.chance(0.6) ? "PLC" : "FEC", {r.pick({3, 7, 7, 1, 15, 23})}));
     if (r.chance(0.02)) ops.push_back(mkop("DRESET"));
+    if (r.chance(0.08)) ops.push_back(mkop("DCTL", {r.weighted({4, 1, 1}), r.pick({256, -256, 1536, 3000, -3000, 1, 5, 10, 0})}));
     if (r.chance(0.2)) ops.push_back(mkop("YIELD", {r.range(0, 7)}));
   }
   if (r.chance(0.5)) ops.push_back(mkop("DESTROY"));
